@@ -48,6 +48,14 @@ type world struct {
 	loggedInReinstate  int
 	synced        bool // passive is expected to equal active (fault-free so far, or cleanly reinstated)
 	catFault      bool // a catalogue operation (create / remove) hit the passive fault: nothing records that
+	// wiped: the harness itself discarded the passive folder's contents (`heal empty`: the drive swapped for a new, empty
+	// one) at a moment when the passive folder was still an exact replica and NO operation of the code had run against
+	// the fault (no commit, creation or removal between `break drive` and the swap). The code never performed a passive
+	// write that failed, so nothing can have been recorded and ReinstateFailedDrives rightly refuses; the difference
+	// between the folders is the environment's doing (the same as deleting a healthy passive folder), outside the
+	// property's quantifier ("passive-side failures at a replication step"). From here on the passive folder is not
+	// expected to equal the active one; the correspondence with the model and the active-side oracles stay on.
+	wiped bool
 	dead          bool // the case stopped observing (a racy outcome followed)
 	dirtyWhy      string
 }
@@ -278,6 +286,13 @@ func (w *world) write(name string, nAdd, nUpd, nDel int) {
 		return
 	}
 	w.ref[name] = next
+	if w.broke == "" && !wasFailed && w.failedNow() && w.wiped {
+		// the emptied drive (see world.wiped) lacks a record this commit removes: the code notices and records the
+		// failure, which is what it should do. Same goroutine race as below: stop observing.
+		w.s.Hit("unobserved_wipe_detected_by_commit")
+		w.dead = true
+		return
+	}
 	if w.broke == "" && !wasFailed && w.failedNow() {
 		// replication failed on a writable passive folder (a record the passive registry should have is missing);
 		// whether the store info was still written is a race between two goroutines: stop observing this case
@@ -356,10 +371,18 @@ func (w *world) heal(keep bool) {
 		w.s.Op("heal keep", "ok")
 		w.s.Hit("heal:keep")
 	} else {
+		// did any operation of the code meet the fault? (a commit that met it recorded FailedToReplicate -> synced is
+		// already false; a creation / removal that met it set catFault, C27-F9)
+		unobserved := w.synced && !w.catFault && !w.everFault && !w.failedKnown && !w.failedNow()
 		replx.HealEmpty(path)
 		w.s.Op("heal empty", "ok")
 		w.s.Hit("heal:empty")
 		w.removedInFail = map[string]bool{}
+		if unobserved {
+			w.wiped = true
+			w.synced = false
+			w.s.Hit("heal:empty_before_any_write_met_the_fault")
+		}
 	}
 	w.broke = ""
 }
@@ -740,6 +763,35 @@ func caseFault(ctx context.Context, s *hx.Session, p *hx.Prng, directed int) {
 	w.colddump()
 }
 
+// The drive fails, nothing is written while it is down, and it is swapped for an empty one: no passive write ever
+// failed, so no failure is recorded and ReinstateFailedDrives refuses. The passive folder is empty because the
+// environment emptied it; that is not a violation (thorough seed 1 case 318 reported it as one). Later commits
+// replicate onto the new drive (registry set / add are upserts).
+func caseUnobservedWipe(ctx context.Context, s *hx.Session) {
+	w, clean := newWorld(ctx, s, "fault")
+	defer clean()
+	s.Hit("case:unobserved_wipe")
+	w.write("sb", 1, 0, 0)
+	w.write("sc", 3, 0, 0)
+	w.meta()
+	s.Nontrivial()
+	w.brk("drive", "")
+	w.meta()
+	w.meta()
+	w.meta()
+	w.heal(false)
+	w.meta()
+	if !w.wiped || w.failedNow() {
+		s.Fail("C27/harness-self-check", "the directed unobserved-wipe case did not reach the state it is about", fmt.Sprint(w.wiped, w.failedNow()))
+	}
+	w.reinstate() // err:not-failed
+	w.meta()
+	w.colddump()
+	w.write("sb", 2, 1, 0)
+	w.meta()
+	w.colddump()
+}
+
 func run(o hx.RunOpts) error {
 	sop.RetryStartDuration = time.Millisecond
 	s := hx.NewSession(o, "cases: real replicated transactions (active/passive folders + EC 2+1 blob drives) run histories of store creation, commits with item adds/updates/removes "+
@@ -753,6 +805,7 @@ func run(o hx.RunOpts) error {
 	caseFault(ctx, s, hx.NewPrng(11), 1)
 	caseFault(ctx, s, hx.NewPrng(12), 2)
 	caseFaultFree(ctx, s, hx.NewPrng(13))
+	caseUnobservedWipe(ctx, s)
 	n := o.N(120, 900)
 	for i := 0; i < n; i++ {
 		if i%3 == 0 {
